@@ -9,6 +9,7 @@ package main
 
 import (
 	"bytes"
+	"encoding/json"
 	"fmt"
 	"os"
 	"os/exec"
@@ -43,9 +44,13 @@ func runNullCrash(cfg *runCfg) error {
 		return err
 	}
 	g := newGen(1)
-	_, _, _, _ = sysLogin(srv, baseLogin(g, 1, true))
-	time.Sleep(500 * time.Millisecond)
-	fmt.Println("ALIVE")
+	peer, resp, _, _ := sysLogin(srv, baseLogin(g, 1, true))
+	time.Sleep(300 * time.Millisecond)
+	refused := peer == nil && resp != nil && resp.Error != ""
+	// the server must still serve a login that no plugin objects to
+	st.set(&script{http: true, status: 200, body: `{"reject":false,"unchange":true}`})
+	p2, _, _, _ := sysLogin(srv, baseLogin(g, 2, true))
+	fmt.Printf("ALIVE refused=%v serves=%v\n", refused, p2 != nil)
 	return nil
 }
 
@@ -73,12 +78,81 @@ func nullContentCrashProbe() (crashed bool, detail string) {
 			}
 			return true, s[i:e]
 		}
+		if strings.Contains(s, "ALIVE refused=true serves=true") {
+			return false, "server survived, the login was refused, the next login was served"
+		}
 		if strings.Contains(s, "ALIVE") {
-			return false, "server survived"
+			return true, "server survived but: " + strings.TrimSpace(s)
 		}
 		return false, "child ended without verdict: " + s[:min(len(s), 300)]
 	case <-time.After(15 * time.Second):
 		_ = cmd.Process.Kill()
 		return false, "child timed out"
 	}
+}
+
+// ---- level 3 runs in a sacrificial child: a panic in a goroutine of the in-process frps ends the
+// process, and the parent must survive to report it together with the other levels' cases.
+
+func init() { drivers["syschild"] = runSysChild }
+
+type sysResult struct {
+	Cases []string            `json:"cases"`
+	Dist  map[string]int      `json:"dist"`
+	Fails []map[string]string `json:"fails"`
+}
+
+func runSysChild(cfg *runCfg) error {
+	hx.Quiet()
+	g := newGen(cfg.Seed*7919 + 15)
+	cases, dist, fails, err := runSys(cfg, g, cfg.N)
+	if err != nil {
+		return err
+	}
+	b, _ := json.Marshal(sysResult{cases, dist, fails})
+	return os.WriteFile(cfg.Out, b, 0o644)
+}
+
+func runSysInChild(cfg *runCfg, n int) ([]string, map[string]int, []map[string]string, error) {
+	if n <= 0 {
+		return nil, map[string]int{}, nil, nil
+	}
+	tmp, err := os.CreateTemp("", "c15sys*.json")
+	if err != nil {
+		return nil, nil, nil, err
+	}
+	tmp.Close()
+	defer os.Remove(tmp.Name())
+	args := []string{"syschild", "-seed", fmt.Sprint(cfg.Seed), "-n", fmt.Sprint(n), "-out", tmp.Name(), "-tier", cfg.Tier}
+	cmd := exec.Command(os.Args[0], args...)
+	var out bytes.Buffer
+	cmd.Stdout, cmd.Stderr = &out, &out
+	runErr := cmd.Run()
+	var res sysResult
+	if runErr == nil {
+		b, e := os.ReadFile(tmp.Name())
+		if e == nil {
+			e = json.Unmarshal(b, &res)
+		}
+		if e != nil {
+			return nil, nil, nil, fmt.Errorf("syschild result: %v", e)
+		}
+		return res.Cases, res.Dist, res.Fails, nil
+	}
+	s := out.String()
+	if i := strings.Index(s, "panic:"); i >= 0 || strings.Contains(s, "fatal error:") {
+		if i < 0 {
+			i = strings.Index(s, "fatal error:")
+		}
+		e := i + 900
+		if e > len(s) {
+			e = len(s)
+		}
+		return nil, map[string]int{"sys-child-crashed": 1}, []map[string]string{{
+			"key":  "impl:frps-crashed-under-scripted-plugin-replies",
+			"what": "the in-process frps of the system level died: " + s[i:e],
+			"case": "rerun: work/h_c15 " + strings.Join(args, " "),
+		}}, nil
+	}
+	return nil, nil, nil, fmt.Errorf("syschild failed: %v: %s", runErr, s[max(0, len(s)-600):])
 }
